@@ -34,12 +34,12 @@ def run(chk, judge, weights):
             n = q if quick else th
             if mut == 'fuzz' or n <= 0:
                 continue
-            if os.path.getsize(fpath) < 4000 and mut in ('sweep', 'field'):
+            if os.path.getsize(fpath) < 4000 and mut in ('sweep', 'field', 'rel'):
                 n *= 2
             args = ['--font', fpath, '--mut', mut, '--scratch', scratch, '--judge', judge]
             if tpath:
                 args += ['--texts', tpath]
-            parts.append(dict(harness='h_face', flavour='asan', args=args, cases=max(1, n // nsh), nshards=nsh, nsamples=1 if mut in ('sweep', 'field') else 0))
+            parts.append(dict(harness='h_face', flavour='asan', args=args, cases=max(1, n // nsh), nshards=nsh, nsamples=1 if mut in ('sweep', 'field', 'rel') else 0))
     if 'fuzz' in weights:
         q, th = weights['fuzz']
         for fpath, ff in fuzz_files():
